@@ -319,7 +319,15 @@ func runC11(c pdCase) (fail string, stats map[string]bool) {
 				g = InstallGates(nil)
 				defer g.Uninstall()
 			}
-			p1 := pc.StartPoll()
+			// (every other time the writer is held further on, inside DoWrite right before it compresses the
+			// response: the poll names a content coding and the payload is above the compression threshold)
+			inCompress := st.Block%2 == 1
+			var p1 *Exchange
+			if inCompress {
+				p1 = pc.StartPollMod(func(r *ReqSpec) { r.Header.Set("Accept-Encoding", "gzip") })
+			} else {
+				p1 = pc.StartPoll()
+			}
 			Settle()
 			s.accepted = append(s.accepted, p1)
 			s.poll = p1
@@ -328,11 +336,17 @@ func runC11(c pdCase) (fail string, stats map[string]bool) {
 				s.poll = nil
 				break
 			}
-			gp := GatePoint{"polling.write.taken", g.Count("polling.write.taken")}
+			site := "polling.write.taken"
+			down := msgT("down-held")
+			if inCompress {
+				site = "polling.DoWrite.compressing"
+				down = msgT("down-held " + strings.Repeat("compressible ", 120))
+			}
+			gp := GatePoint{site, g.Count(site)}
 			g.mu.Lock()
 			g.plan[gp] = true
 			g.mu.Unlock()
-			w.AppSend(s.sr, msgT("down-held"), nil, false, 0)
+			w.AppSend(s.sr, down, nil, false, 0)
 			Settle()
 			held := false
 			for _, x := range g.Parked() {
@@ -349,18 +363,30 @@ func runC11(c pdCase) (fail string, stats map[string]bool) {
 				break
 			}
 			stats["poll-arriving-while-a-response-is-being-written"] = true
+			if inCompress {
+				stats["poll-arriving-while-a-response-is-being-compressed"] = true
+			}
+			passed0 := g.Count("polling.onPollRequest.checked")
 			p2 := pc.StartPoll()
 			pc.Poll = p1
 			// (the newcomer's handler may need a lock the held writer owns: give it room instead of waiting for quiescence)
-			for k := 0; k < 20000 && !p2.Snap().Responded; k++ {
+			for k := 0; k < 20000 && !p2.Snap().Responded && g.Count("polling.onPollRequest.checked") == passed0; k++ {
 				runtime.Gosched()
 			}
 			inWindow := p2.Snap().Responded
+			if !inWindow && g.Count("polling.onPollRequest.checked") > passed0 {
+				// the newcomer is past the overlap test (it has reached the yield point behind it) while the first
+				// poll is still unanswered, its response in the writer's hands
+				g.Release(gp)
+				Settle()
+				return fmt.Sprintf("%s: a second poll was admitted as the session's pending poll while the first one was still unanswered (its response was being %s)", what, map[bool]string{false: "written", true: "compressed"}[inCompress]), stats
+			}
 			g.Release(gp)
 			Settle()
 			if !inWindow && p2.Snap().Status != 400 {
 				// the newcomer did not get to run while the writer was held: it is an ordinary next poll
 				delete(stats, "poll-arriving-while-a-response-is-being-written")
+				delete(stats, "poll-arriving-while-a-response-is-being-compressed")
 				s.accepted = append(s.accepted, p2)
 				pc.Poll = nil
 				pc.Pump()
@@ -873,7 +899,7 @@ func TestC11PollingDiscipline(t *testing.T) {
 			rt.Fatalf("%v: %s", c, clipStr(res.Leak, 1500))
 		}
 	})
-	col.RequireClasses(t, "data-request-of-undeclared-length-acknowledged", "overlapping-poll", "overlapping-data-request", "aborted-poll", "aborted-data-request", "stalled-body-released", "poll-released-by-close", "poll-answered-by-send", "multi-packet-ack", "undisturbed-session-ok", "request-after-close", "data-request-while-handler-busy", "client-close-packet-with-poll-pending", "wrong-heartbeat-with-poll-pending", "two-responders-for-one-data-request", "poll-response-on-slow-connection", "poll-arriving-while-a-response-is-being-written", "data-request-with-disallowed-content-type", "disallowed-content-type-with-poll-pending", "two-polls-past-the-overlap-test-together", "two-data-requests-past-the-overlap-test-together")
+	col.RequireClasses(t, "poll-arriving-while-a-response-is-being-compressed", "data-request-of-undeclared-length-acknowledged", "overlapping-poll", "overlapping-data-request", "aborted-poll", "aborted-data-request", "stalled-body-released", "poll-released-by-close", "poll-answered-by-send", "multi-packet-ack", "undisturbed-session-ok", "request-after-close", "data-request-while-handler-busy", "client-close-packet-with-poll-pending", "wrong-heartbeat-with-poll-pending", "two-responders-for-one-data-request", "poll-response-on-slow-connection", "poll-arriving-while-a-response-is-being-written", "data-request-with-disallowed-content-type", "disallowed-content-type-with-poll-pending", "two-polls-past-the-overlap-test-together", "two-data-requests-past-the-overlap-test-together")
 }
 
 const sigTruncatedUpload = "aborted-upload-truncated-payload-processed"
